@@ -13,7 +13,7 @@
 (***************************************************************************)
 EXTENDS Lattice, TLC
 
-CONSTANTS N, BigN, Canon
+CONSTANTS N, BigN, Canon, Emit
 
 Rows == ((-N)..N) \X ((-N)..N) \X ((-N)..N)
 (* Canon: first row 0 <= x <= y <= z.  Column permutations and column sign flips  *)
@@ -33,8 +33,13 @@ PickRest == /\ phase = "rest"
             /\ \E r2 \in Rows : \E r3 \in Rows : L' = <<L[1], r2, r3>>
             /\ G' = Gram(L') /\ Dt' = M3Det(L')
             /\ phase' = "lattice" /\ UNCHANGED cell
+(* spec -> code: with Emit the lattices of the -BigN..BigN sub-range are printed; the       *)
+(* harness drives every printed lattice through the real UnitCell constructors.            *)
+EmitLattice == IF Emit /\ \A i \in Ix : \A j \in Ix : L[i][j] \in (-BigN)..BigN
+               THEN PrintT("G|" \o ToString(L)) ELSE TRUE
 FromVectors == /\ phase = "lattice" /\ Dt > 0
                /\ cell' = [route |-> "vectors", gram |-> Gram(L)] /\ phase' = "cell" /\ UNCHANGED <<L, G, Dt>>
+               /\ EmitLattice
 FromParams == /\ phase = "lattice" /\ Dt > 0
               /\ cell' = [route |-> "params", gram |-> GramFromParams2(Params2(G))]
               /\ phase' = "cell" /\ UNCHANGED <<L, G, Dt>>
